@@ -44,7 +44,8 @@ def gen_arith(c):
     for m, tag in ((p, "modp"), (N, "modn")):
         vs = fp_vals(rng, m)
         prs = [(x, y) for x in vs for y in vs]; rng.shuffle(prs)
-        for x, y in prs[: (40 if q else 400)]:
+        must = [(x, (m - x) % m) for x in vs] + [(m - 1, 1), (1, m - 1), (m - 1, m - 1), (0, 0), (0, m - 1), (m - 2, 1)]      # sums on the reduction boundary are never thinned
+        for x, y in must + prs[: (40 if q else 400)]:
             put({"op": tag + "_add", "a": i2b(x), "b": i2b(y)}, grp="z")
             put({"op": tag + "_sub", "a": i2b(x), "b": i2b(y)}, grp="z")
             if tag == "modp":
